@@ -219,7 +219,10 @@ func ruleSeekOff(c *Ctx, r *Rep, tier string) {
 				ok = true
 			}
 		}
-		r.Check(ok, rule, fmt.Sprintf("bgzf.(*countReader).seek#buffer~%d", k), c.Pos(ins.Pos()), "the read-ahead buffer is discarded on the success edge of the underlying Seek only", "the buffered bytes are discarded whether or not the underlying Seek succeeded, the recorded offset is not: after a failed seek the offset says P, the next byte comes from past the dropped buffer, and a read of the block at P skips the seek")
+		if !ok && failureInvalidates(c, fn, seek, offF) {
+			ok = true // the offset matches nothing after a failure: the next use seeks and resets the buffer anyway
+		}
+		r.Check(ok, rule, fmt.Sprintf("bgzf.(*countReader).seek#buffer~%d", k), c.Pos(ins.Pos()), "the read-ahead buffer is discarded on the success edge of the underlying Seek only (or the failure edge invalidates the offset)", "the buffered bytes are discarded whether or not the underlying Seek succeeded, the recorded offset is not: after a failed seek the offset says P, the next byte comes from past the dropped buffer, and a read of the block at P skips the seek")
 	})
 }
 
@@ -1028,3 +1031,32 @@ func workerTestsErr(c *Ctx) (worker *ssa.Function, tested, found bool) {
 
 var _ = types.Typ
 var _ = token.ADD
+
+// failureInvalidates: on every path from the failure edge of the underlying Seek
+// to a return, the recorded offset is set to a negative constant.
+func failureInvalidates(c *Ctx, fn *ssa.Function, seek *ssa.Call, offF *types.Var) bool {
+	isInval := func(x ssa.Instruction) bool {
+		st, ok := x.(*ssa.Store)
+		if !ok {
+			return false
+		}
+		fa, ok := st.Addr.(*ssa.FieldAddr)
+		if !ok || fieldVarOfAddr(fa) != offF {
+			return false
+		}
+		k, isK := constInt(st.Val)
+		return isK && k < 0
+	}
+	found := false
+	for _, b := range fn.Blocks {
+		ce, isC := classifyErrIf(b, func(v ssa.Value) bool { ex, isEx := v.(*ssa.Extract); return isEx && ex.Tuple == ssa.Value(seek) })
+		if !isC || !ce.isNil || b.Succs[0] == b.Succs[1] {
+			continue
+		}
+		found = true
+		if _, ok := mustPass(Loc{b.Succs[1-ce.yes], -1}, isReturn, isInval, nil); !ok {
+			return false
+		}
+	}
+	return found
+}
